@@ -6,6 +6,7 @@ mod distr;
 mod entropy;
 mod enumr;
 mod fills;
+mod floats;
 mod mockutil;
 mod readmock;
 mod serde_rt;
@@ -39,6 +40,12 @@ fn dispatch(req: &Req) -> R<String> {
 		"read" => readmock::read(req),
 		"mock" => readmock::mock(req),
 		"system" => entropy::system(req),
+		"fp" => floats::fp(req),
+		"ufloat" => floats::ufloat(req),
+		"expd" => floats::expd(req),
+		"norm" => floats::norm(req, false),
+		"lnorm" => floats::norm(req, true),
+		"zig" => floats::zig(req),
 		"newgen" => entropy::newgen(req),
 		"serdist" => serde_rt::serdist(req),
 		_ => Err(Bad),
